@@ -26,6 +26,8 @@ def run(ctx):
     ctx.alias = {'R2': 'R2', 'R3': 'R2', 'R1': 'R2'}
     c07.r2_arithmetic(ctx)
     c07.r3_index(ctx)
+    ctx.alias = {'R4': 'R2'}
+    c07.r4_iteration(ctx)       # measures_count = len(index): the `to` of the last pair
     ctx.alias = {}
     f = ctx.prog.func(f'{N.GENERIC}.Generic.concat')
     contents, sepn = f.params[1:3]
